@@ -11,7 +11,13 @@ type buildDeferTree struct {
 }
 
 func (b *buildDeferTree) Process(response *resolve.GraphQLDeferResponse) {
-	if b.disable || len(response.Defers) == 0 {
+	if b.disable {
+		return
+	}
+
+	b.pruneDescriptorsWithoutFetches(response)
+
+	if len(response.Defers) == 0 {
 		return
 	}
 
@@ -47,6 +53,70 @@ func (b *buildDeferTree) Process(response *resolve.GraphQLDeferResponse) {
 		branches[i] = b.buildChain(root, childrenOf)
 	}
 	response.DeferTree = resolve.DeferParallel(branches...)
+}
+
+// pruneDescriptorsWithoutFetches drops the descriptors of defers that own no
+// fetch group, so that the set of descriptors (what the resolver announces as
+// `pending` and counts as outstanding) is exactly the set of defers in the
+// execution tree (what the resolver renders and completes).
+//
+// Descriptors are collected from the operation before the planner selects data
+// sources. The abstract selection rewriter may afterwards remove a deferred
+// inline fragment entirely, e.g. when its type condition names a type that the
+// data source resolving the enclosing interface/union field can never return.
+// Such a defer has no fields left in the response and no fetch, so there is
+// nothing to deliver for it: it must not be announced, otherwise it would stay
+// pending forever and the stream would end with hasNext:true.
+//
+// A surviving defer whose parent was dropped is re-parented to its nearest
+// ancestor that owns a fetch group (0, i.e. top-level, when there is none), so
+// it is still announced and scheduled.
+func (b *buildDeferTree) pruneDescriptorsWithoutFetches(response *resolve.GraphQLDeferResponse) {
+	hasGroup := make(map[int]struct{}, len(response.Defers))
+	for _, g := range response.Defers {
+		hasGroup[g.DeferID] = struct{}{}
+	}
+
+	orphans := false
+	for id := range response.DeferDescriptors {
+		if _, ok := hasGroup[id]; !ok {
+			orphans = true
+			break
+		}
+	}
+	if !orphans {
+		return
+	}
+
+	// nearestParentWithGroup walks up the ParentID chain of the original
+	// descriptors; the step limit guards against a malformed (cyclic) chain.
+	nearestParentWithGroup := func(parentID int) int {
+		for range len(response.DeferDescriptors) {
+			if parentID == 0 {
+				return 0
+			}
+			if _, ok := hasGroup[parentID]; ok {
+				return parentID
+			}
+			parent, ok := response.DeferDescriptors[parentID]
+			if !ok {
+				return 0
+			}
+			parentID = parent.ParentID
+		}
+		return 0
+	}
+
+	// build a new map: the original one is owned by the planner
+	pruned := make(map[int]resolve.DeferDescriptor, len(hasGroup))
+	for id, desc := range response.DeferDescriptors {
+		if _, ok := hasGroup[id]; !ok {
+			continue
+		}
+		desc.ParentID = nearestParentWithGroup(desc.ParentID)
+		pruned[id] = desc
+	}
+	response.DeferDescriptors = pruned
 }
 
 // buildChain returns Single for a leaf, or Sequence(Single, subtree) when
